@@ -230,7 +230,7 @@ pub fn gen(seed: u64) -> Replay {
     }
     let mut next_id = 0u64;
     for _ in 0..n {
-        let op = if ids.is_empty() { 0 } else { rng.weighted(&[3, 6, 6, 2, 2, 2, 2, 2, 2, 2, 2]) };
+        let op = if ids.is_empty() { 0 } else { rng.weighted(&[3, 6, 6, 2, 2, 2, 2, 2, 2, 2, 2, 2]) };
         match op {
             0 => {
                 let access = *rng.pick(&["rw", "ro", "wo"]);
@@ -271,6 +271,9 @@ pub fn gen(seed: u64) -> Replay {
                 let same: Vec<u64> = ids.iter().filter(|y| y.1 == x.1 && y.2 == x.2).map(|y| y.0).collect();
                 let b = if rng.chance(70) { *rng.pick(&same) } else { rng.pick(&ids).0 };
                 steps.push(json!({"op": if op == 4 { "eq" } else { "ne" }, "a": x.0, "b": b}));
+            }
+            11 => {
+                steps.push(json!({"op": "leaf", "width": *rng.pick(&[1u64, 2, 4]), "port": port_pick(&mut rng, &used), "write": rng.chance(40), "value": rng.next() as u32, "seed": rng.next()}));
             }
             10 => {
                 // a short-lived object whose last byte is the last byte of a mapped page
@@ -348,6 +351,66 @@ fn chain_write_narrow_then_wide(a: u16, b: u16, c: u16, x: u32) {
     }
 }
 
+// ---- port accesses in functions without calls (the caller's locals may live in the red zone) -------
+
+const LEAF_N: usize = 12;
+
+fn lcg(x: u64) -> u64 {
+    x.wrapping_mul(6364136223846793005).wrapping_add(1442695040888963407)
+}
+
+fn leaf_expected(seed: u64) -> u64 {
+    let (mut x, mut h) = (seed, 0u64);
+    for _ in 0..LEAF_N {
+        x = lcg(x);
+        h = h.rotate_left(7) ^ x;
+    }
+    h
+}
+
+macro_rules! leaf_fns {
+    ($rd:ident, $wr:ident, $t:ty) => {
+        /// No calls in here (the port access is inlined): seeded locals in stack memory around it.
+        #[inline(never)]
+        fn $rd(port: u16, seed: u64) -> (u32, u64) {
+            let mut a = [0u64; LEAF_N];
+            let mut x = seed;
+            unsafe {
+                for k in 0..LEAF_N {
+                    x = lcg(x);
+                    core::ptr::write_volatile(a.as_mut_ptr().add(k), x);
+                }
+                let v = PortReadOnly::<$t>::new(port).read();
+                let mut h = 0u64;
+                for k in 0..LEAF_N {
+                    h = h.rotate_left(7) ^ core::ptr::read_volatile(a.as_ptr().add(k));
+                }
+                (v as u32, h)
+            }
+        }
+        #[inline(never)]
+        fn $wr(port: u16, value: u32, seed: u64) -> u64 {
+            let mut a = [0u64; LEAF_N];
+            let mut x = seed;
+            unsafe {
+                for k in 0..LEAF_N {
+                    x = lcg(x);
+                    core::ptr::write_volatile(a.as_mut_ptr().add(k), x);
+                }
+                PortWriteOnly::<$t>::new(port).write(value as $t);
+                let mut h = 0u64;
+                for k in 0..LEAF_N {
+                    h = h.rotate_left(7) ^ core::ptr::read_volatile(a.as_ptr().add(k));
+                }
+                h
+            }
+        }
+    };
+}
+leaf_fns!(leaf_read8, leaf_write8, u8);
+leaf_fns!(leaf_read16, leaf_write16, u16);
+leaf_fns!(leaf_read32, leaf_write32, u32);
+
 fn mask(width: u8) -> u32 {
     match width {
         1 => 0xff,
@@ -377,13 +440,19 @@ pub fn run(rp: &Replay, st: &mut Stats) -> Option<Violation> {
         match op {
             "new" => {
                 let port = s["port"].as_u64().unwrap() as u16;
-                let o = Obj::new(s["access"].as_str().unwrap(), s["width"].as_u64().unwrap(), port);
+                let o = match sut_call("new", || Obj::new(s["access"].as_str().unwrap(), s["width"].as_u64().unwrap(), port)) {
+                    Ok(o) => o,
+                    Err(m) => return Some(viol(&["C18"], "panic", i, format!("creating a port object for port {port:#x} panicked: {m}"))),
+                };
                 objs.insert(s["id"].as_u64().unwrap(), (o, port));
             }
             "clone" => {
                 let (src, dst) = (s["id"].as_u64().unwrap(), s["new_id"].as_u64().unwrap());
                 if let Some((o, p)) = objs.get(&src) {
-                    let c = (o.dup(), *p);
+                    let c = match sut_call("clone", || o.dup()) {
+                        Ok(c) => (c, *p),
+                        Err(m) => return Some(viol(&["C18"], "panic", i, format!("cloning the port object for port {p:#x} panicked: {m}"))),
+                    };
                     objs.insert(dst, c);
                 }
             }
@@ -391,7 +460,14 @@ pub fn run(rp: &Replay, st: &mut Stats) -> Option<Violation> {
                 // dst.clone_from(&src): afterwards dst refers to src's port
                 let (src, dst) = (s["id"].as_u64().unwrap(), s["dst"].as_u64().unwrap());
                 if src != dst {
-                    if let Some((so, sp)) = objs.get(&src).map(|(o, p)| (o.dup(), *p)) {
+                    let dup = match objs.get(&src) {
+                        Some((o, p)) => match sut_call("clone", || o.dup()) {
+                            Ok(c) => Some((c, *p)),
+                            Err(m) => return Some(viol(&["C18"], "panic", i, format!("cloning the port object for port {p:#x} panicked: {m}"))),
+                        },
+                        None => None,
+                    };
+                    if let Some((so, sp)) = dup {
                         if let Some(d) = objs.get_mut(&dst) {
                             let r = sut_call("clone_from", || d.0.assign_from(&so));
                             match r {
@@ -410,7 +486,11 @@ pub fn run(rp: &Replay, st: &mut Stats) -> Option<Violation> {
             "eq" => {
                 let (a, b) = (s["a"].as_u64().unwrap(), s["b"].as_u64().unwrap());
                 if let (Some(x), Some(y)) = (objs.get(&a), objs.get(&b)) {
-                    if let Some(r) = x.0.eq(&y.0) {
+                    let r = match sut_call("eq", || x.0.eq(&y.0)) {
+                        Ok(r) => r,
+                        Err(m) => return Some(viol(&["C18"], "panic", i, format!("comparing the port objects for ports {:#x} and {:#x} panicked: {m}", x.1, y.1))),
+                    };
+                    if let Some(r) = r {
                         st.calls += 1;
                         if r != (x.1 == y.1) {
                             return Some(viol(&["C18"], "port-eq", i, format!("port objects for ports {:#x} and {:#x} compare {}", x.1, y.1, if r { "equal" } else { "unequal" })));
@@ -421,7 +501,11 @@ pub fn run(rp: &Replay, st: &mut Stats) -> Option<Violation> {
             "ne" => {
                 let (a, b) = (s["a"].as_u64().unwrap(), s["b"].as_u64().unwrap());
                 if let (Some(x), Some(y)) = (objs.get(&a), objs.get(&b)) {
-                    if let Some(r) = x.0.ne(&y.0) {
+                    let r = match sut_call("ne", || x.0.ne(&y.0)) {
+                        Ok(r) => r,
+                        Err(m) => return Some(viol(&["C18"], "panic", i, format!("comparing (`!=`) the port objects for ports {:#x} and {:#x} panicked: {m}", x.1, y.1))),
+                    };
+                    if let Some(r) = r {
                         st.calls += 1;
                         if r != (x.1 != y.1) {
                             return Some(viol(&["C18"], "port-eq", i, format!("port objects for ports {:#x} and {:#x}: `!=` returned {}", x.1, y.1, r)));
@@ -502,6 +586,41 @@ pub fn run(rp: &Replay, st: &mut Stats) -> Option<Violation> {
                 }
                 st.count("chained_accesses_in_one_function");
                 st.distinct_key(&[9, kind, 0, 0, 0, 0, 0]);
+            }
+            "leaf" => {
+                let width = s["width"].as_u64().unwrap_or(1) as u8;
+                let port = s["port"].as_u64().unwrap_or(0) as u16;
+                let is_read = !s["write"].as_bool().unwrap_or(false);
+                let value = s["value"].as_u64().unwrap_or(0) as u32;
+                let seed = s["seed"].as_u64().unwrap_or(0);
+                let r = sut_call("leaf", || match (is_read, width) {
+                    (true, 1) => { let (v, h) = leaf_read8(port, seed); (Some(v), h) }
+                    (true, 2) => { let (v, h) = leaf_read16(port, seed); (Some(v), h) }
+                    (true, _) => { let (v, h) = leaf_read32(port, seed); (Some(v), h) }
+                    (false, 1) => (None, leaf_write8(port, value, seed)),
+                    (false, 2) => (None, leaf_write16(port, value, seed)),
+                    (false, _) => (None, leaf_write32(port, value, seed)),
+                });
+                st.calls += 1;
+                st.count("access_inside_a_function_without_calls");
+                let trace = std::mem::take(&mut world().cpu.trace);
+                st.fold_trace(&trace);
+                let (got, h) = match r {
+                    Err(m) => return Some(viol(&["C18"], "panic", i, format!("port access in a call-free function panicked: {m}"))),
+                    Ok(v) => v,
+                };
+                let ok = trace.len() == 1
+                    && match &trace[0] {
+                        Ev::In { width: w2, port: p2, val } => is_read && *w2 == width && *p2 == port && got == Some(*val),
+                        Ev::Out { width: w2, port: p2, val } => !is_read && *w2 == width && *p2 == port && *val == value & mask(width),
+                        _ => false,
+                    };
+                if !ok {
+                    return Some(viol(&["C18"], "port-access", i, format!("{} of a {}-bit port object for port {port:#x} inside a call-free function executed {trace:x?} (returned {got:x?})", if is_read { "read" } else { "write" }, width * 8)));
+                }
+                if h != leaf_expected(seed) {
+                    return Some(viol(&["C18"], "caller-memory-touched", i, format!("a function without calls kept {LEAF_N} seeded words in its stack frame around a {}-bit port {}; they read back changed (the access is to happen without touching memory)", width * 8, if is_read { "read" } else { "write" })));
+                }
             }
             "edge" => {
                 let (acc, width) = (s["access"].as_u64().unwrap_or(0) as u8, s["width"].as_u64().unwrap_or(1) as u8);
